@@ -49,11 +49,13 @@ claim('C12',
       'multiobj, notify_*, objno_used), the SolverNLHandlerImpl overrides, NLProblemBuilder::{resulting_nobj, NeedObj, '
       'resulting_obj_index}, the objno range check of OnHeader and the O-segment case of NLReader::Read; the statement\'s '
       'clauses (all / exactly the k-th / none, rejection beyond the file, index safety, echoed objno) are a lemma proved '
-      'over those contracts for every option state, objective count and index.',
+      'over those contracts for every option state, objective count and index. ProblemFlattener::Convert(MutObjective): the objective '
+      'handed to AddObjective has the sense read, the linear part of the file, and the linear terms, quadratic terms and constant of the '
+      'flattened nonlinear part, with sorted terms, exactly once.',
       'Trusted: CBMC, extractor, one solver object with members as globals, virtual dispatch resolved to the '
       'SolverNLHandlerImpl overrides, invariant objno_ >= -1 (proved for SetObjNo, initialiser read from the source). '
-      'Not decided: discarding of skipped objective expressions/G segments (recursive readers), flattener objective '
-      'conversion, the objno line of the .sol writer.',
+      'Not decided: discarding of skipped objective expressions/G segments (recursive readers), the expression visitor and the '
+      'term containers of the flattener (ghost objects), the objno line of the .sol writer.',
       'DESIGN.md 4 C12')
 
 claim('C15',
@@ -76,7 +78,8 @@ claim('C14',
       'occurs, dual/primal readers are offered at most NumAlgCons/NumVars values (precondition checks at the real call '
       'sites), suffix buffers are sized from the validated header and their zero sentinel is never overwritten, a reader '
       'with an error or unread values always yields a non-OK result, only documented result codes are returned, and file-derived '
-      'text never reaches a printf-style function as the format (CheckReader passes the reader\'s message as an argument of "%s").',
+      'text never reaches a printf-style function as the format (CheckReader passes the reader\'s message as an argument of "%s"), and in '
+      'binary form a value reported as read (OK) was read completely (fread delivered every byte of it).',
       'Trusted: CBMC, extractor (members as globals, std::string/vector as pointer+length, block stubs for File::Open and the '
       'solve_msg_ string handling), the libc stubs in shims/stdio_stubs.h, allocation succeeds. Termination of the file-driven '
       'loops is not claimed (files are finite). Library writes into the file-sized suffix buffer havoc the whole buffer. '
@@ -94,10 +97,12 @@ claim('C11',
       'by the end of the text or any white space) never reaches it, a flag that is given a value never reaches it (an error is '
       'reported instead), an unknown name never reaches it. OptionHelper<int>::Parse hands on exactly the number strtol read or '
       'raises an option error (no silent truncation). BasicSolver::ParseOptions parses the sources in the order mp_options, '
-      '<executable>_options or else <solver>_options, command line, the command line with FROM_COMMAND_LINE and in argument order.',
+      '<executable>_options or else <solver>_options, command line, the command line with FROM_COMMAND_LINE and in argument order. '
+      'BOUNDED stand-in (not counted as proved): SolverOption::wc_match for strings of at most 5 characters - a match implies head prefix and '
+      'tail suffix, head+body+tail with a non-empty body matches and records that body.',
       'Trusted: CBMC, extractor, isspace as the C-locale predicate total on int, strtol/strtod never pass the first NUL, '
       'FindOption/HandleUnknownOption/ReportError/Print/getenv as stubs, the computation of the executable-specific variable name '
-      '(std::filesystem) dropped. Not decided: synonym/wildcard lookup (FindOption: std::set / lambdas), echo, the quoted-string '
+      '(std::filesystem) dropped. Not decided: synonym lookup (FindOption: std::set / lambdas), wildcard matching beyond the bounded stand-in (std::string modelled in C), echo, the quoted-string '
       'value text, termination when HandleUnknownOption returns without consuming. Native replay: sweep of option texts, '
       'queries, integer ranges and source combinations under ASan.',
       'DESIGN.md 4 C11')
@@ -127,7 +132,12 @@ claim('C05',
       'DESIGN.md 4 C05')
 
 claim('C03',
-      'Two lemmas. (1) Binary numeric constants: the real BinaryFormatter::nput, the real variadic BinaryFormatter::apr (for the '
+      'Lemmas. (0) Header layout and writer structure: the real NLWriter2::WriteNLHeader with every nm.Printf expanded mechanically (R22p: printf '
+      'dialect, the gl_* format constants read from the file on each run) into a token stream over which the real TextReader::ReadHeader runs, '
+      'starting from the extracted NLInfo() defaults: every field is reported as written for every valid header without stochastic entities, '
+      'and real-number conversions must carry >= 17 significant digits; StartDefVar writes V <index> <nnz> <position> with the position the NL '
+      'format defines (objectives numbered after ALL constraints); WriteConObjExpressions writes C0.., L0.., O0.. in order, each after the '
+      'defined variables of exactly that item (3 loop contracts). (1) Binary numeric constants: the real BinaryFormatter::nput, the real variadic BinaryFormatter::apr (for the '
       'three formats nput uses) and the real NLReader::ReadConstant with BinaryReader::{ReadInt<short|int|long>, ReadDouble, Read} '
       'are chained over one fully symbolic double: every double is read back with the identical value, bit-identical apart '
       'from the sign of zero, NaN as NaN, and the reader consumes exactly the bytes written. (2) Opcode tables: for every '
@@ -141,10 +151,11 @@ claim('C03',
       'Trusted: CBMC (incl. its va_arg model), extractor, little-endian host, fwrite as a ghost byte buffer, dtoa_r_dmgay '
       '(shortest round-trip digit generation: arbitrary-precision code outside the reach of contracts; a native sweep shows it '
       'is NOT round-trip exact for some doubles next to short decimals, see DESIGN.md 9.5 observations), strtod. Not decided: '
-      'header layout, segment order, suffixes, names, whole-model text = binary equivalence. The claim is restricted to the '
-      'three lemmas.',
+      'the other segments (bounds, J/G/k, suffixes, initial guesses, functions), names, whole-model text = binary equivalence. The claim is '
+      'restricted to these lemmas. Native replay: replay/c03_replay.cc, replay/c03_header_replay.cc (headers, defined-variable positions through '
+      'the real WriteNLFile / ReadNLFile).',
       'DESIGN.md 4 C03',
-      technique='contract-style assertions over the real extracted bodies, discharged by CBMC 6.11 for all inputs (loop-free: complete); no DFCC because of varargs')
+      technique='contract-based deductive verification: CBMC 6.11 DFCC function/loop contracts (writer structure) and contract-style assertions over the real extracted bodies, discharged for all inputs (formatters and header: loop-free after complete unwinding; no DFCC there because of varargs)')
 
 claim('C02',
       'Function and loop contracts on the real leaf readers - ReaderBase::ReadChar, TextReader::{SkipSpace, ReadTillEndOfLine, '
@@ -184,11 +195,13 @@ claim('C04',
       'ReverseBasisLowUpp, PostsolveIIS incl. the raise on an unknown slack value, Pre/PostsolveGeneric int/double, lazy/user-cut '
       'flags) whose postconditions are the documented slack mapping of the statement, for all node sizes, indices and values; '
       'ValueNode::CleanUpAndRealloc[_Names]: before each transfer every value array has the node\'s size and holds only zeros '
-      '(no value of an earlier transfer survives).',
+      '(no value of an earlier transfer survives); Many2ManyLink::AddEntry (base of One2ManyLink / Many2OneLink) with the real '
+      'NodeRange::{operator==, ExtendableBy, TryExtendBy, ExtendBy}: the set of linked (source position, target position) pairs after the '
+      'call is exactly the old set plus the pairs of the new entry (arbitrary witness pair).',
       'Trusted: CBMC, extractor, value vectors as (pointer,length), Get/Set accessors bound to three node arrays with the proved '
       'SetNum rule, target entries cleaned to zero before a transfer (assumed), no NaN. Not decided: the link graph itself '
-      '(CopyLink, One2Many/Many2One, autolinking over std::deque), exactly-one-value-per-item, CleanUpValueNodes, slack value '
-      'computation. No native replay driver (VIOLATION lines end in no-failing-input-found).',
+      '(CopyLink, the distribution loops of One2Many/Many2One, autolinking over std::deque), exactly-one-value-per-item, CleanUpValueNodes, '
+      'slack value computation. Native replay: replay/c04_replay.cc (setnum, graph, links), replay/c04_repeat_replay.cc.',
       'DESIGN.md 4 C04')
 
 claim('C07',
@@ -200,7 +213,9 @@ claim('C07',
       'all true, 0 when none; Violation::Check: violated iff viol > epsabs and (valX == 0 or |viol/valX| > epsrel). '
       'Which constraints count: IndicatorConstraint::ComputeViolation (the implied constraint counts exactly when the binary\'s nearest '
       'integer is the indicator value), FunctionalConstraint::ComputeViolation (result variable against the recomputed value, by context), '
-      'AlgebraicConstraint::ComputeViolation and AlgConRhs<kind>::ComputeViolation (lower / upper side per comparison kind).',
+      'AlgebraicConstraint::ComputeViolation and AlgConRhs<kind>::ComputeViolation (lower / upper side per comparison kind). '
+      'Variables: SolutionChecker::CheckVars (loop contract, witness variable): every checked variable has its lower bound (lb - x relative '
+      'to lb), upper bound (x - ub relative to ub) and - when integer - integrality (absolute tolerance only) passed to the violation counter.',
       'Trusted: CBMC (fabs/round models), extractor, arguments are valid variable indices (model invariant, assumed at each access), '
       'no NaN in the point. Not decided: exact counting for Count/Numberof, the quotient of Div (double division is beyond every '
       'installed back end), the converse of AllDiff, transcendental evaluators, which constraints the driver passes to the checker, recomputation of '
@@ -213,14 +228,16 @@ claim('C06',
       'is_integer_value}, count_fixed_01, FixEqualityResult, the rhs rounding of conditional comparisons (all four kinds, all '
       'doubles) and PreprocessConstraint for Abs, Min, Max, IfThen, Not, AllDiff, Implication, Count, NumberofConst, NumberofVar, '
       'the fixed-result part of And/Or, Div (result box = hull of the four corner quotients, corner quotients as opaque ghost values; '
-      'integer result type only for an exact integer quotient of fixed integers), and the result boxes of Exp, ExpA, Sin, Cos, Tanh, Asin, Acos, Atan, Cosh, Acosh - for '
+      'integer result type only for an exact integer quotient of fixed integers), Pow (constant only for exponent 0, alias only for exponent 1, '
+      'integer only for an integer argument and a non-negative integer exponent, box never narrower than the two end values - opaque ghosts - '
+      'and containing 0 for an even exponent around 0), and the result boxes of Exp, ExpA, Sin, Cos, Tanh, Asin, Acos, Atan, Cosh, Acosh - for '
       'argument lists and models of any size: the array functions return exactly the min/max of the box ends (witness position + '
       'arbitrary common bound), types are INTEGER only for integer-valued arguments, aliases only when exact, fixed results only '
       'when justified for every body value, range boxes contain the range constants of the functions.',
       'Trusted: CBMC (fabs/floor/ceil models), extractor (prepro / model handle objects as free functions), arguments are valid '
       'variable indices, bounds not NaN, the body box given to FixEqualityResult is sound. NOT under contract (IEEE '
       'multiplication/division/pow monotonicity is beyond every installed back end): ComputeBoundsAndType for linear/quadratic '
-      'terms, ProductBounds, the arithmetic of Div\'s corner quotients, Pow, And/Or argument filtering, NarrowVarBounds propagation, lin_approx.h. The claim is restricted '
+      'terms, ProductBounds, the arithmetic of Div\'s corner quotients, what pow returns and its monotonicity, And/Or argument filtering, NarrowVarBounds propagation, lin_approx.h. The claim is restricted '
       'accordingly.',
       'DESIGN.md 4 C06')
 
